@@ -47,7 +47,10 @@ RULE_ADDED = (
               'a signature algorithm identifier unknown to the library. '
               ' '
               'Round 12: a second, failing attestation-key + quote branch listed as a target be'
-              'fore the genuine quote. ')
+              'fore the genuine quote. '
+              ' '
+              'Round 13: chains one of whose certificates carries an issuer name that is not it'
+              "s certifier's subject name (the signature decides). ")
 RULE = RULE + " " + RULE_ADDED.strip()
 ASSUMPTIONS = [
     "oracle: pv/oracle/certv2.py; X.509 parsing itself is shared (cryptography), signature "
@@ -509,6 +512,8 @@ def run_case_at(acc, cseed, tmpdir, rng, clock):
     if gv is not None and not gv[0]:
         acc.violation("refused-valid-chain:genuine-by-construction", {"got": gv[1]}, case)
     acc.distinct.add("genuine|%d|%s|%s" % (len(m.certs), key_form, clock))
+    if m.odd_issuer_name is not None:
+        acc.count("genuine_chains_with_an_issuer_name_that_is_not_the_certifiers_subject_name")
     if gv is not None and gv[0] and rng.random() < 0.5:
         # time passes: the very same document, loaded afresh in the same process, is
         # validated again once the clock is beyond (or before) its certificates' validity -
